@@ -740,7 +740,7 @@ func (fc *FnCtx) typeID(t types.Type) string {
 		// pairwise distinct type ids
 		for o := range fc.vc.ufuncs {
 			if strings.HasPrefix(o, "tid.") {
-				fc.vc.assert("(distinct " + n + " " + o + ")")
+				fc.vc.assertGlobal("(distinct " + n + " " + o + ")")
 			}
 		}
 		fc.vc.ufuncs[n] = true
@@ -954,18 +954,18 @@ func (fc *FnCtx) globalConst(g *ssa.Global) Val {
 		fc.vc.declare(n, string(s))
 		fc.vc.trust("package-level variables never stored to outside init are constants; error sentinels created by errors.New are non-nil and pairwise distinct")
 		if isErrorType(t) {
-			fc.vc.assert("(> " + n + " 0)")
+			fc.vc.assertGlobal("(> " + n + " 0)")
 			fc.vc.declareFun("cause", []string{"Int"}, "Int")
-			fc.vc.assert(mkEq("(cause "+n+")", n))
+			fc.vc.assertGlobal(mkEq("(cause "+n+")", n))
 			for o := range fc.vc.ufuncs {
 				if strings.HasPrefix(o, "globerr.") {
-					fc.vc.assert("(distinct " + n + " " + o[8:] + ")")
+					fc.vc.assertGlobal("(distinct " + n + " " + o[8:] + ")")
 				}
 			}
 			fc.vc.ufuncs["globerr."+n] = true
 		} else {
 			// constants live below every allocation frontier
-			fc.vc.assert(fc.wellTyped(n, t, baseName("alloc", 0), 0))
+			fc.vc.assertGlobal(fc.wellTyped(n, t, baseName("alloc", 0), 0))
 			fc.getCompIn(fc.topEntry(), "alloc", "Int")
 		}
 	}
